@@ -150,7 +150,13 @@ def check_data(datas, E, N, cfg, acc, only_call=None, only_combo=None):
             acc.violation("base:raised", case0, repr(e))
             continue
         for combo, (dims, renorm) in enc.items():
-            for tag, dd in (("shifted", dims), ("renormalised", renorm)):
+            for tag, dd in (("shifted", dims), ("renormalised", renorm)) + ((("shifted, saved, loaded", None),) if agg == "count" else ()):
+                if dd is None:
+                    try:
+                        dd = [c03._through_indx(ix) for ix in dims]
+                    except Exception as e:  # noqa
+                        acc.violation("ccube:%s:%s:raised" % (agg, tag), dict(case0, combo=list(combo), stage=tag), repr(e))
+                        continue
                 case = dict(case0, combo=list(combo), stage=tag, commons=[ix.common for ix in dd])
                 try:
                     r = ev(dd)
@@ -165,10 +171,19 @@ def check_data(datas, E, N, cfg, acc, only_call=None, only_combo=None):
         if agg in ("count", "mean"):
             from catii.iindexes import iindex
 
-            for combo in enc:
+            # one tally per dimension, computed once and handed to every from_array call below (as an application would)
+            tallies = []
+            for dn in denses:
+                t = {}
+                for xv in dn.flat:
+                    t[int(xv)] = t.get(int(xv), 0) + 1
+                tallies.append(t)
+            for ci, combo in enumerate(enc):
                 case = dict(case0, combo=list(combo), stage="from_array(common=v)")
                 try:
-                    fa = [iindex.from_array(dn, common=int(v)) for dn, v in zip(denses, combo)]
+                    fa = [iindex.from_array(dn, counts=(t if ci % 2 else None), common=int(v)) for dn, v, t in zip(denses, combo, tallies)]
+                    if agg == "count" and ci % 3 == 0:
+                        fa = [c03._through_indx(ix) for ix in fa]      # ... and through IndxIO.save / load on the way to the cube
                     msg = same(ev(fa), base, grand)
                 except Exception as e:  # noqa
                     acc.violation("ccube:%s:from_array:raised" % agg, case, repr(e))
